@@ -300,11 +300,9 @@ func (c *ClusterInfo) Sync(cluster *proxyv1alpha1.UpstreamCluster) error {
 
 	klog.V(5).Infof("[cluster info] syncing cluster info, name=%q", c.Cluster)
 
-	if cluster.Annotations != nil {
-		if err := c.syncFeatureGate(cluster.Annotations); err != nil {
-			// we should never get here because there is validating admission
-			return err
-		}
+	if err := c.syncFeatureGate(cluster.Annotations); err != nil {
+		// we should never get here because there is validating admission
+		return err
 	}
 
 	// sync flow control type
@@ -560,14 +558,15 @@ func (c *ClusterInfo) FeatureEnabled(key featuregate.Feature) bool {
 
 func (c *ClusterInfo) syncFeatureGate(annotations map[string]string) error {
 	featuregate := annotations[features.FeatureGateAnnotationKey]
-	if len(featuregate) == 0 {
-		if !features.IsDefault(c.featuregate) {
-			// reset featuregate
-			c.featuregate = features.DefaultMutableFeatureGate.DeepCopy()
+	// always start from the defaults so that the gates depend on the current annotation only
+	newFeatureGate := features.DefaultMutableFeatureGate.DeepCopy()
+	if len(featuregate) > 0 {
+		if err := newFeatureGate.Set(featuregate); err != nil {
+			return err
 		}
-		return nil
 	}
-	return c.featuregate.Set(featuregate)
+	c.featuregate = newFeatureGate
+	return nil
 }
 
 // upstream policy    enabled
